@@ -90,7 +90,7 @@ pub fn drive(a: &Args) {
     let m: u32 = 6;
     let nlayouts = a.sz(2, 6);
     for li in 0..nlayouts {
-        let lay = Layout::new(m, &mut rng, li == 0);
+        let lay = if li == 1 { Layout::edges(m) } else { Layout::new(m, &mut rng, li == 0) };
         let mut ivs = vec![];
         for lo in 0..=m {
             for hi in lo..=m {
